@@ -486,7 +486,7 @@ class Evaluator:
             if isinstance(v, Opaque):
                 return Opaque(f'{v.desc}.{e.attr}')
             if isinstance(v, Record):
-                if not hasattr(v, e.attr) and not isinstance(e.value, ast.Name) or (isinstance(e.value, ast.Name) and e.value.id == 'self' and e.attr not in v.__dict__):
+                if v is env.get('self') and e.attr not in v.__dict__:
                     mem = self._class_member(e.attr)
                     if isinstance(mem, ast.FunctionDef) and any(text(d) == 'property' for d in mem.decorator_list):
                         return self.call_function(mem, [], {}, bound_self=v)
@@ -503,13 +503,14 @@ class Evaluator:
                 try:
                     return getattr(v, e.attr)
                 except AttributeError:
+                    if isinstance(v, Obj):
+                        raise _Raise('AttributeError')  # a complete model: the program would fail the same way
                     raise AnalysisError(f'attribute {text(e)} is not part of the model')
-            if isinstance(e.value, ast.Name) and self.cls and e.value.id == self.cls:
-                mem = self._class_member(e.attr)
-                if isinstance(mem, ast.Assign):
-                    return self.expr(mem.value, {})
-                if isinstance(mem, ast.FunctionDef):
-                    return lambda *a, **k: self.call_function(mem, a, k)
+            if self.model_types and isinstance(v, self.model_types):
+                try:
+                    return getattr(v, e.attr)
+                except AttributeError:
+                    raise _Raise('AttributeError')
             raise AnalysisError(f'unsupported attribute access {text(e)}')
         if isinstance(e, ast.Call):
             try:
@@ -558,8 +559,8 @@ class Evaluator:
                 b = self._module_binding(f.id)
                 if isinstance(b, ast.FunctionDef):
                     return self.call_function(b, args, kwargs)
-                if f.id in ('frozenset', 'bytes', 'sum', 'repr', 'iter', 'next', 'filter', 'hasattr', 'callable', 'getattr'):
-                    r = {'frozenset': frozenset, 'bytes': bytes, 'sum': sum, 'repr': repr, 'iter': iter, 'next': next, 'filter': filter, 'hasattr': hasattr, 'callable': callable, 'getattr': getattr}[f.id](*args, **kwargs)
+                if f.id in ('frozenset', 'bytes', 'sum', 'repr', 'iter', 'next', 'filter', 'hasattr', 'callable', 'getattr', 'hex', 'oct', 'bin', 'round', 'float'):
+                    r = {'frozenset': frozenset, 'bytes': bytes, 'sum': sum, 'repr': repr, 'iter': iter, 'next': next, 'filter': filter, 'hasattr': hasattr, 'callable': callable, 'getattr': getattr, 'hex': hex, 'oct': oct, 'bin': bin, 'round': round, 'float': float}[f.id](*args, **kwargs)
                     return list(r) if f.id == 'filter' else r
                 raise AnalysisError(f'call of unmodelled function {f.id}')
             if isinstance(f, ast.Attribute):
@@ -572,7 +573,7 @@ class Evaluator:
                     return list(r) if f.attr in ('items', 'keys', 'values') else r
                 if isinstance(recv, Record) and callable(getattr(recv, f.attr, None)):
                     return getattr(recv, f.attr)(*args, **kwargs)
-                if isinstance(recv, Record) and isinstance(self._class_member(f.attr), ast.FunctionDef):
+                if isinstance(recv, Record) and recv is env.get('self') and isinstance(self._class_member(f.attr), ast.FunctionDef):
                     return self.call_function(self._class_member(f.attr), args, kwargs, bound_self=recv)
                 if isinstance(f.value, ast.Name) and self.cls and f.value.id == self.cls and isinstance(self._class_member(f.attr), ast.FunctionDef):
                     return self.call_function(self._class_member(f.attr), args, kwargs)
@@ -615,6 +616,11 @@ class Record:
 
     def __init__(self, **kw):
         self.__dict__.update(kw)
+
+
+class Obj(Record):
+    """A record that models its object completely: reading an attribute it does not have
+    raises AttributeError in the evaluated program (for Record it is an analysis error)."""
 
 
 def compared_constants(fn, kinds=(int, str, bytes)):
